@@ -429,12 +429,26 @@ def moved_cases(fam, cases):
     op, dim, kinds = FAMS[fam]
     out = []
     for c in cases:
-        if c["e"] != "none" or c["k"] == "line3":
+        if c["e"] == "none" and c["k"] == "line3":
             continue
+        if c["e"] != "none" and (c["s"] == "zero-vector" or "line3" not in kinds):
+            continue        # degenerate inputs: the families with lines of 3-space (the other ones hold no per-object state)
         for mname, mv, T, Ti in motions(dim):
             if mname == "+point" and any(k == "point" and v[-1] == 0 for k, v in zip(kinds, c["a"])):
                 continue        # point at infinity + point is vector arithmetic (C19), not a translation of the point
             site = f"{op}({','.join(kinds)})/{dim}D/single/used-then-moved/{mname}"
+            if c["e"] != "none":
+                # a dependent / skew configuration stays one under an isometry (every property of the arguments was read before)
+                try:
+                    objs = [warm(build(k, v)) for k, v in zip(kinds, c["a"])]
+                    st, res = _call(op, [mv(o) for o in objs])
+                    if st == "ok":
+                        out.append(dict(cls="silent", site=site, stratum=c["s"], case=c, expected={"err": c["e"]}, observed={"returned": kind_of(res)}))
+                    elif err_name(res) != c["e"]:
+                        out.append(dict(cls="error-class", site=site, stratum=c["s"], case=c, expected={"err": c["e"]}, observed=f"raised {err_name(res)}: {res}"))
+                except Exception as e:  # noqa: BLE001
+                    out.append(dict(cls="error-class", site=site, stratum=c["s"], case=c, expected={"err": c["e"]}, observed=f"raised {type(e).__name__}: {e}"))
+                continue
             exp = mp(T, c["v"]) if c["k"] == "point" else mh(Ti, c["v"])
             try:
                 objs = [warm(build(k, v)) for k, v in zip(kinds, c["a"])]
@@ -538,7 +552,7 @@ def broadcast_cases(fam, cases):
     return out
 
 
-def complex_cases(recs):
+def complex_cases(recs, cdt=np.complex128, sfx=""):
     """C01_Complex.tla: Gaussian-integer points / lines / planes; all API forms of the same multilinear operation."""
     g = import_geometer()
     from geometer.exceptions import LinearDependenceError
@@ -546,7 +560,7 @@ def complex_cases(recs):
     Z = lambda z: np.array(z[0]) + 1j * np.array(z[1])  # noqa: E731
     for d in recs:
         r, st = d["r"], d["s"]
-        args = [Z(a) for a in r["args"]]
+        args = [Z(a).astype(cdt) for a in r["args"]]
         exp = Z(r["out"])
         dep = st == "dependent"
         if r["t"] == "j2":
@@ -570,6 +584,7 @@ def complex_cases(recs):
                      ("meet(plane,line3)/3D/complex", lambda: g.meet(E[0], g.meet(E[1], E[2])))]
         case = {"t": r["t"], "args": r["args"]}
         for site, fn in forms:
+            site = site + sfx
             try:
                 res = fn()
                 arr = np.asarray(res.array, dtype=complex).reshape(-1)
@@ -601,7 +616,8 @@ def _work(job):
         if kind == "empty":
             return empty_case(job[1])
         if kind == "complex":
-            return complex_cases(job[1])
+            # a third of the cases also with single-precision complex coordinates (small Gaussian integers are exact there)
+            return complex_cases(job[1]) + complex_cases(job[1][::3], np.complex64, "/complex64")
         if kind == "far":
             return far_cases(job[1], job[2])
         if kind == "moved":
@@ -687,6 +703,10 @@ def run(ctx: Ctx) -> int:
                 jobs.append(("far", f, gsel[i:i + 400]))
         if prop == "C01" and not f.startswith("rt"):
             msl = gsel[::max(1, len(gsel) // 240)]
+            for i in range(0, len(msl), 80):
+                jobs.append(("moved", f, msl[i:i + 80]))
+        if prop == "C02" and "line3" in FAMS[f][2]:
+            msl = dsel[::max(1, len(dsel) // 160)]
             for i in range(0, len(msl), 80):
                 jobs.append(("moved", f, msl[i:i + 80]))
         if f in ("j2pp", "m2ll", "j3pp", "m3ee", "j3ppp", "m3eee") and prop == "C01":
